@@ -1,4 +1,5 @@
 import Poulpy.Lemmas.CkksMulCt
+import Poulpy.Lemmas.CkksKsNumeric
 /-!
 # C16, piece 5 (second half): `glwe_tensor_relinearize` (rank 1) is C03's key switch of the `s₁²` column
 
@@ -350,12 +351,13 @@ theorem mulAdm_discharged {env : Env} (he : EnvOK env) {N : Nat} (hN : 0 < N) {m
     (hadm : ∀ T0 T1 T2, Core.tensorApply false mk.big N env.base2k (max a.g.size b.g.size) q.cnv env.base2k
         (effCols env.base2k a.md.effK a.g) a.md.effK (effCols env.base2k b.md.effK b.g) b.md.effK
         (zeroC N (tensorCols a.g) (max a.g.size b.g.size)) = some [T0, T1, T2] →
+      TensorCol N (max a.g.size b.g.size) (2 ^ (env.base2k - 1)) T0 → TensorCol N (max a.g.size b.g.size) (2 ^ (env.base2k - 1)) T2 →
       RelinAdm mk.big N env.base2k (max a.g.size b.g.size) mk.tsk s EL KL Hp Gmax Dmax T0 T2) :
     MulAdm env N 1 s (mulCtU N env.base2k (divCeil b.md.effK env.base2k) (max a.g.size b.g.size) dst.g.size (s.getD 0 [])
         (relinU env.base2k dst.g.size mk.tsk.size s Gmax Dmax) : Int)
       dst a b (dMulInto env N mk dst a b) q :=
   mulAdm_of_relin he hN hd ha hb hm hq hhi hroom hs (fun T0 T1 T2 ht w0 w1 w2 d0 d1 d2 =>
-    relinContract_of_adm hN he.lo (by have := he.hi; omega) (hadm T0 T1 T2 ht) dst.g.size w0 w1 w2 d0 d1 d2)
+    relinContract_of_adm hN he.lo (by have := he.hi; omega) (hadm T0 T1 T2 ht ⟨w0, d0⟩ ⟨w2, d2⟩) dst.g.size w0 w1 w2 d0 d1 d2)
 
 theorem mulInto_of_squareInto {env : Env} {dst a m : Ct} (h : squareInto env dst a = .ok m) : mulInto env dst a a = .ok m := by
   obtain ⟨q, hq, hchk, hm⟩ := squareInto_params h
@@ -389,6 +391,7 @@ theorem squareAdm_discharged {env : Env} (he : EnvOK env) {N : Nat} (hN : 0 < N)
     (hadm : ∀ T0 T1 T2, Core.tensorApply false mk.big N env.base2k (max a.g.size a.g.size) q.cnv env.base2k
         (effCols env.base2k a.md.effK a.g) a.md.effK (effCols env.base2k a.md.effK a.g) a.md.effK
         (zeroC N (tensorCols a.g) (max a.g.size a.g.size)) = some [T0, T1, T2] →
+      TensorCol N (max a.g.size a.g.size) (2 ^ (env.base2k - 1)) T0 → TensorCol N (max a.g.size a.g.size) (2 ^ (env.base2k - 1)) T2 →
       RelinAdm mk.big N env.base2k (max a.g.size a.g.size) mk.tsk s EL KL Hp Gmax Dmax T0 T2) :
     MulAdm env N 1 s (mulCtU N env.base2k (divCeil a.md.effK env.base2k) (max a.g.size a.g.size) dst.g.size (s.getD 0 [])
         (relinU env.base2k dst.g.size mk.tsk.size s Gmax Dmax) : Int)
@@ -403,5 +406,82 @@ theorem MulAdm.mono {env : Env} {N r : Nat} {s : List Poly} {U U' : ℚ} {dst a 
   refine ⟨c', h1, h2, h3, h4, z, ⟨fun t ht => ?_⟩⟩
   obtain ⟨q', e, hr, he⟩ := hc.rel t ht
   exact ⟨q', e, hr, he.trans (mul_le_mul_of_nonneg_right hU (by positivity))⟩
+
+/-- **`RelinAdm` from numeric shape conditions, keys with `dsize = 1`** (the keys of the CKKS layer): what remains of C03's
+hypotheses is the key relation with `‖EL 0 r‖∞ ≤ Emax`, the key's digits within `Kb`, the covered regime and one numeric head-room
+inequality; the product accumulators, the gadget noise and the dropped limbs are bounded for **every** admissible tensor. -/
+theorem RelinAdm.of_numeric {big : Bool} {N b ts : Nat} {g : GGLWE} {s : List Poly} {EL KL : ℕ → ℕ → Poly} {Kb Emax : Int}
+    (hgb : g.base2k = b) (hgn : g.n = N) (hci : g.colsIn = 1) (hco : g.colsOut = 2) (hd1 : g.dsize = 1)
+    (hM : ∀ j q, (g.toPMat.entry j q).length = N) (hS : g.dnum ≤ g.size) (hcov1 : ts ≤ g.size) (hcov2 : ts ≤ g.dnum)
+    (hs : s ≠ []) (hs1 : (s.getD 0 []).length = N) (hEL : ∀ i r, (EL i r).length = N) (hKL : ∀ i r, (KL i r).length = N)
+    (hkey : ∀ i, i < 1 → ∀ r, r < g.dnum →
+      Gadget.val (Ks.radix N b) g.size (Ks.keyPhase N s g.toPMat i r) =
+        Ks.ι N (([Hal.negMul (s.getD 0 []) (s.getD 0 [])] : List Poly).getD i []) * Ks.radix N b ^ (g.size - (r + 1) * g.dsize)
+          + Ks.ι N (EL i r) + Ks.radix N b ^ g.size * Ks.ι N (KL i r))
+    (hK0 : 0 ≤ Kb) (hK : ∀ j q, ∀ x ∈ g.toPMat.entry j q, |x| ≤ Kb) (hE0 : 0 ≤ Emax) (hE : ∀ i r, Hal.normInf (EL i r) ≤ Emax)
+    (hroom : ((1 * g.dnum : Nat) : Int) * (N * 2 ^ (b - 1) * Kb) + 3 * 2 ^ (b - 1) + 8 ≤ 2 ^ (bitsOf big - 2))
+    (T0 T2 : Col) (h0 : TensorCol N ts (2 ^ (b - 1)) T0) (h2 : TensorCol N ts (2 ^ (b - 1)) T2) :
+    RelinAdm big N b ts g s EL KL (((1 * g.dnum : Nat) : Int) * (N * 2 ^ (b - 1) * Kb))
+      ((1 : Nat) * ((g.dnum : Nat) * (N * 2 ^ (b - 1) * Emax))) 0 T0 T2 := by
+  obtain ⟨ha, hsz, hrk, hbk⟩ := relinCt_wf b h0.1 h2.1
+  have hcolsb : ∀ c ∈ (relinCt b N T0 T2).cols, ∀ l ∈ c, ∀ x ∈ l, |x| ≤ 2 ^ (b - 1) := by
+    intro c hc
+    simp only [relinCt, Ks.mkCt, List.mem_cons, List.mem_nil_iff, or_false] at hc
+    rcases hc with rfl | rfl
+    · exact h0.2
+    · exact h2.2
+  obtain ⟨_, dcols, _, _, dact, dA⟩ := aDft_spec (relinCt b N T0 T2) ha
+  have hkd : g.toKey.dsize = 1 := hd1
+  refine ⟨hgb, hgn, hci, hco, by omega, hM, by rw [hd1]; omega, hcov1, by rw [hd1]; omega, hs, hs1, hEL, hKL, hkey, by positivity, hroom,
+    ?_, ?_, ?_⟩
+  · intro i hi
+    have := KsNum.prodOf_bound_d1 N 1 (relinCt b N T0 T2) g.toKey hkd ha (2 ^ (b - 1)) Kb (by positivity) hK0 hcolsb hK i hi
+    have e : (g.toKey.mat.colsIn * g.toKey.mat.rows : Nat) = 1 * g.dnum := by
+      show g.colsIn * g.dnum = _; rw [hci]
+    rw [e] at this
+    exact this
+  · have := KsNum.gadgetBound_d1 N b (aDftOf (relinCt b N T0 T2)) g.toKey hkd EL (2 ^ (b - 1)) Emax (by positivity) hE0 dA
+      (by
+        intro i l hl x hx
+        by_cases hi : i < (relinCt b N T0 T2).rank
+        · rw [dact i hi] at hl
+          exact hcolsb _ (col_mem _ (by rw [ha.len]; omega)) l hl x hx
+        · -- columns beyond the rank are empty
+          exfalso
+          have hwf := (aDft_spec (relinCt b N T0 T2) ha).1
+          have : (aDftOf (relinCt b N T0 T2)).act i = [] := by
+            unfold Buf.act
+            rw [List.getD_eq_getElem?_getD, List.getElem?_eq_none (by rw [hwf.1, dcols]; omega)]
+            simp
+          rw [this] at hl; cases hl) hE
+    have e1 : (g.toKey.mat.colsIn : Int) = ((1 : Nat) : Int) := by show ((g.colsIn : Nat) : Int) = _; rw [hci]
+    have e2 : (g.toKey.mat.rows : Int) = (g.dnum : Int) := rfl
+    rw [e1, e2] at this
+    exact this
+  · exact le_of_eq (KsNum.dropBound_d1 N b s _ g.toKey hkd)
+
+/-- **`ckks_mul_into` (rank 1), numeric form for `dsize = 1` tensor keys**: no data-dependent hypothesis is left — the tensor key is a
+gadget encryption of `s₁⋆s₁` under `s` with `‖EL‖∞ ≤ Emax`, its digits are within `Kb`, and the shape / head-room inequalities hold -/
+theorem mulAdm_numeric {env : Env} (he : EnvOK env) {N : Nat} (hN : 0 < N) {mk : MulKey} {dst a b : DCt} {Hd : Int}
+    (hd : GB N env.base2k 1 Hd dst.g) (ha : DOK env N 1 a) (hb : DOK env N 1 b) {m : Ct}
+    (hm : mulInto env dst.ct a.ct b.ct = .ok m) {q : MulP} (hq : mulCtParams env dst.ct a.ct b.ct = .ok q)
+    (hhi : (cnvOffsetSplit env.base2k q.cnv).1 ≤ divCeil a.md.effK env.base2k + divCeil b.md.effK env.base2k - 1)
+    (hroom : 2 ^ env.base2k * (4 * (divCeil b.md.effK env.base2k : Int) * N * 2 ^ env.base2k) + 8 ≤ 2 ^ (bitsOf mk.big - 2))
+    {s : List Poly} {EL KL : ℕ → ℕ → Poly} {Kb Emax : Int}
+    (hgb : mk.tsk.base2k = env.base2k) (hgn : mk.tsk.n = N) (hci : mk.tsk.colsIn = 1) (hco : mk.tsk.colsOut = 2) (hd1 : mk.tsk.dsize = 1)
+    (hM : ∀ j q, (mk.tsk.toPMat.entry j q).length = N) (hS : mk.tsk.dnum ≤ mk.tsk.size)
+    (hcov1 : max a.g.size b.g.size ≤ mk.tsk.size) (hcov2 : max a.g.size b.g.size ≤ mk.tsk.dnum)
+    (hs : s ≠ []) (hs1 : (s.getD 0 []).length = N) (hEL : ∀ i r, (EL i r).length = N) (hKL : ∀ i r, (KL i r).length = N)
+    (hkey : ∀ i, i < 1 → ∀ r, r < mk.tsk.dnum →
+      Gadget.val (Ks.radix N env.base2k) mk.tsk.size (Ks.keyPhase N s mk.tsk.toPMat i r) =
+        Ks.ι N (([Hal.negMul (s.getD 0 []) (s.getD 0 [])] : List Poly).getD i []) * Ks.radix N env.base2k ^ (mk.tsk.size - (r + 1) * mk.tsk.dsize)
+          + Ks.ι N (EL i r) + Ks.radix N env.base2k ^ mk.tsk.size * Ks.ι N (KL i r))
+    (hK0 : 0 ≤ Kb) (hK : ∀ j q, ∀ x ∈ mk.tsk.toPMat.entry j q, |x| ≤ Kb) (hE0 : 0 ≤ Emax) (hE : ∀ i r, Hal.normInf (EL i r) ≤ Emax)
+    (hroomK : ((1 * mk.tsk.dnum : Nat) : Int) * (N * 2 ^ (env.base2k - 1) * Kb) + 3 * 2 ^ (env.base2k - 1) + 8 ≤ 2 ^ (bitsOf mk.big - 2)) :
+    MulAdm env N 1 s (mulCtU N env.base2k (divCeil b.md.effK env.base2k) (max a.g.size b.g.size) dst.g.size (s.getD 0 [])
+        (relinU env.base2k dst.g.size mk.tsk.size s ((1 : Nat) * ((mk.tsk.dnum : Nat) * (N * 2 ^ (env.base2k - 1) * Emax))) 0) : Int)
+      dst a b (dMulInto env N mk dst a b) q :=
+  mulAdm_discharged he hN hd ha hb hm hq hhi hroom hs (fun T0 _ T2 _ t0 t2 =>
+    RelinAdm.of_numeric hgb hgn hci hco hd1 hM hS hcov1 hcov2 hs hs1 hEL hKL hkey hK0 hK hE0 hE hroomK T0 T2 t0 t2)
 
 end Ckks
